@@ -24,7 +24,7 @@ RULE = ("products of <= 4 objects drawn from ERI, Coulomb integrals, "
         "targets are the Einstein targets or an explicit subset of <= 4 "
         "indices; every spin string of the targets is run.  Fixed inputs: "
         "all single objects, the definitions of all registered "
-        "intermediates, MP energies, the four inputs of the repaired defects (corpus).  A case is "
+        "intermediates, MP energies, the four inputs of the repaired defects and the seeded-defect example W_bdef (corpus).  _has_valid_combination: random lists of 2-5 objects with 1-4 candidate maps over 1-3 of 6 indices, 70% with a hidden solution behind decoys; brute-force stream: products of 3-5 tabled objects, 2-4 targets.  A case is "
         "non-trivial if the term has at least one contracted index or at "
         "least two objects with a block table; distinct = distinct "
         "(term, targets, spins, mode) text")
@@ -546,12 +546,117 @@ def stage_expand(ctx):
                            "correspondence": "expand_eri_expr"}, False)
 
 
+def brute_blocks(E, names):
+    """oracle of C15_dfs_complete / C15_block_not_reported: a target block is
+    allowed iff for some term some total spin assignment of the term's
+    indices gives the targets the block's spins and puts every object with a
+    block table on an allowed block.  None if a table cannot be computed."""
+    tg = list(get_symbols(names))
+    out = set()
+    for term in E.terms:
+        objs = []
+        for o in term.objects:
+            if o.sympy.is_number:
+                continue
+            tb = o.allowed_spin_blocks
+            if tb is not None:
+                objs.append((o.idx, set(tb)))
+        idx = sorted(set(term.idx) | set(tg), key=sort_idx_canonical)
+        if len(idx) > 14:
+            return None
+        pos = {x: n for n, x in enumerate(idx)}
+        for assign in itertools.product("ab", repeat=len(idx)):
+            if all("".join(assign[pos[x]] for x in ix) in tb
+                   for ix, tb in objs):
+                out.add("".join(assign[pos[x]] for x in tg))
+    return out
+
+
+def nonzero_on_block(E, names, blk, tabs, seeds=(7, 8)):
+    """search a spin-structured model on which the expression does not vanish
+    on the target block; returns a replay dict or None"""
+    ictx = adcio.IdxCtx()
+    try:
+        p_in = adcio.conv_expr(E.sympy, ictx)
+    except adcio.Unsupported:
+        return None
+    tg_in = [ictx.conv(x) for x in get_symbols(names)]
+    if max((len(adcio.term_contracted(t, set(tg_in))) for t in p_in),
+           default=0) > 6:
+        return None
+    for seed in seeds:
+        model = U.spin_model(seed, 1, tabs)
+        ranges = [model.rng(x.space, s) for x, s in zip(tg_in, blk)]
+        for combo in itertools.product(*ranges):
+            try:
+                val = model.eval_expr(p_in, dict(zip(tg_in, combo)))
+            except ZeroDivisionError:
+                continue
+            if val != 0:
+                return {"model_seed": seed, "block": blk,
+                        "orbitals": list(combo), "value": val,
+                        "prime": numeric.P}
+    return None
+
+
+def check_complete(ctx, label, E, names, reported, tabs):
+    """reported blocks vs the brute-force oracle"""
+    try:
+        brute = brute_blocks(E, names)
+    except Exception as ex:     # noqa
+        ctx.note(f"brute force {label}: {ex!r}")
+        return
+    if brute is None:
+        return
+    missing = sorted(brute - reported)
+    extra = sorted(reported - brute)
+    if not ctx.obligation(f"allowed_spin_blocks complete (brute force) "
+                          f"{label}", not missing, f"missing {missing}"):
+        nz = None
+        for blk in missing:
+            nz = nonzero_on_block(E, names, blk, tabs)
+            if nz is not None:
+                break
+        ctx.violation(
+            f"C15:block-not-reported:{label}",
+            "allowed_spin_blocks(expr, target) does not report a block on "
+            "which a consistent spin assignment exists"
+            + (" and the expression is non-zero" if nz else ""),
+            {"expr": str(E.sympy)[:1000], "targets": names,
+             "reported": sorted(reported), "brute_force": sorted(brute),
+             "missing": missing, "nonzero_value": nz,
+             "theorem": "C15_dfs_complete / C15_block_not_reported"},
+            nz is not None)
+    if not ctx.obligation(f"allowed_spin_blocks sound (brute force) {label}",
+                          not extra, f"extra {extra}"):
+        ctx.violation(
+            f"C15:block-reported-without-assignment:{label}",
+            "allowed_spin_blocks(expr, target) reports a block for which no "
+            "consistent spin assignment exists",
+            {"expr": str(E.sympy)[:1000], "targets": names,
+             "reported": sorted(reported), "brute_force": sorted(brute),
+             "extra": extra}, False)
+
+
+def corpus_blocks():
+    """expressions kept because a seeded defect showed on them"""
+    a, b, c, d, e, f = get_symbols("abcdef")
+    m, n = get_symbols("mn")
+    # W^{bd}_{ef} = - t1^{be}_{mn} t2^{a}_{n} t2^{c}_{m} <ac||df>: needs
+    # backtracking in _has_valid_combination after a trial that put beta on an
+    # index the valid combination needs as alpha
+    W = (-Amplitude("t1", (b, e), (m, n)) * Amplitude("t2", (a,), (n,))
+         * Amplitude("t2", (c,), (m,))
+         * AntiSymmetricTensor("V", (a, c), (d, f)))
+    return [("corpus:W_bdef", Expr(W, target_idx=[b, d, e, f]), "bdef")]
+
+
 def stage_expr_blocks(ctx, tabs, quick):
     """D: allowed_spin_blocks(expr, target) == model; a block that is not
     reported is zero on a spin-structured tensor model"""
     rng = ctx.rng
     itab_def = f"Definition ITAB : itable := {U.coq_itab(tabs)}.\n"
-    inputs = []
+    inputs = corpus_blocks()
     for name, it in Intermediates().available.items():
         try:
             ex = it.expand_itmd(fully_expand=False).expand()
@@ -620,11 +725,11 @@ def stage_expr_blocks(ctx, tabs, quick):
                           {"expr": str(E.sympy)[:1000], "targets": names,
                            "python": py, "model": mv,
                            "correspondence": "expr_allowed_blocks"}, False)
-            continue
         if py[0] != "ok" or len(names) > 4:
             continue
-        # numeric: every block that is not reported vanishes
         reported = {"".join(b) for b in py[1]}
+        check_complete(ctx, label, E, names, reported, tabs)
+        # numeric: every block that is not reported vanishes
         ictx = adcio.IdxCtx()
         try:
             p_in = adcio.conv_expr(E.sympy, ictx)
@@ -655,6 +760,151 @@ def stage_expr_blocks(ctx, tabs, quick):
                          "block": blk, "orbitals": combo, "value": val,
                          "reported": sorted(reported)}, True)
                     break
+
+
+def stage_blocks_bruteforce(ctx, tabs, quick):
+    """D2: allowed_spin_blocks(expr, target) against the brute-force oracle on
+    products of 3-4 objects with block tables that share contracted indices
+    (no Coq evaluation: many cheap cases)"""
+    rng = ctx.rng
+    voc = U.vocab(rng)
+    n = 700 if quick else 5000
+    done = 0
+    tries = 0
+    while done < n and tries < 5 * n:
+        tries += 1
+        sym, _k = U.random_product(rng, voc, rng.choice([3, 3, 4, 4, 5]),
+                                   kinds=["V", "t2", "t1", "t1", "t3"])
+        E0 = Expr(sym)
+        if E0.sympy == 0:
+            continue
+        allidx = sorted(set(E0.terms[0].idx), key=sort_idx_canonical)
+        if len(allidx) > 10:
+            continue
+        tg = rng.sample(allidx, rng.randint(2, min(4, len(allidx))))
+        names = "".join(x.name for x in tg)
+        E = Expr(sym, target_idx=tg)
+        try:
+            rep = {"".join(b) for b in so.allowed_spin_blocks(E, names)}
+        except Exception as ex:     # noqa
+            ctx.obligation(f"allowed_spin_blocks raises {sym}", False,
+                           repr(ex))
+            ctx.violation(f"C15:expr-blocks-exception:bf{done}",
+                          f"allowed_spin_blocks raised {ex!r}",
+                          {"expr": str(sym), "targets": names}, True)
+            done += 1
+            continue
+        done += 1
+        ctx.case(key=("bf", str(sym), names), nontrivial=True,
+                 kind=f"expr-blocks-bruteforce:objs{len(E.terms[0].objects)}")
+        check_complete(ctx, f"bf{done}:{sym}"[:160], E, names, rep, tabs)
+
+
+def _rand_hvc_instance(rng, pool):
+    """lists of candidate idx-maps per object; often with a hidden solution
+    that is reached only after backtracking over alpha/beta conflicts"""
+    n_obj = rng.randint(2, 5)
+    hidden = {x: rng.choice("ab") for x in pool} \
+        if rng.random() < 0.7 else None
+    inst = []
+    for _ in range(n_obj):
+        sub = rng.sample(pool, rng.randint(1, 3))
+        cands = []
+        for _ in range(rng.randint(1, 4)):
+            c = tuple(rng.choice("ab") for _ in sub)
+            if c not in cands:
+                cands.append(c)
+        if hidden is not None:
+            h = tuple(hidden[x] for x in sub)
+            if h in cands:
+                cands.remove(h)
+            # decoys first: the solution is reached after failed trials
+            cands.insert(rng.choice([len(cands), len(cands),
+                                     rng.randint(0, len(cands))]), h)
+        inst.append([{"a": {x for x, sp in zip(sub, c) if sp == "a"},
+                      "b": {x for x, sp in zip(sub, c) if sp == "b"}}
+                     for c in cands])
+    return inst
+
+
+def stage_hvc(ctx, quick):
+    """G: _has_valid_combination itself (called through the module) against
+    the Gallina hvc and against a brute-force product search"""
+    rng = ctx.rng
+    pool = list(get_symbols("ijkabc"))
+    ictx = adcio.IdxCtx()
+    cq = {x: ictx.conv(x).coq() for x in pool}
+
+    def coq_set(st):
+        return "[" + "; ".join(cq[x] for x in sorted(
+            st, key=sort_idx_canonical)) + "]"
+
+    def coq_map(m):
+        return f"(SMap {coq_set(m['a'])} {coq_set(m['b'])})"
+    n = 3000 if quick else 15000
+    cases, obs = [], []
+    for k in range(n):
+        inst = _rand_hvc_instance(rng, pool)
+        arg = [[{"a": set(m["a"]), "b": set(m["b"])} for m in l]
+               for l in inst]
+        variant = {"a": set(), "b": set()}
+        try:
+            res = bool(so._has_valid_combination(arg, 0, variant))
+            exc = None
+        except Exception as ex:     # noqa
+            res, exc = None, repr(ex)
+        # brute force: one map per object, no index with two spins
+        oracle = None
+        for choice in itertools.product(*inst):
+            a = set().union(*(m["a"] for m in choice))
+            b = set().union(*(m["b"] for m in choice))
+            if not a & b:
+                oracle = {"a": a, "b": b}
+                break
+        untouched = (arg == inst)
+        cases.append(
+            "match hvc " + adcio.coq_list(
+                adcio.coq_list(coq_map(m) for m in l) for l in inst)
+            + " sempty with Some v => Some (smap_eqb v "
+            + coq_map(variant) + ") | None => None end")
+        obs.append((inst, res, exc, variant, oracle, untouched))
+    vals, _ = ctx.coq_eval("hvc", cases, header=U.COQ_HEADER, shard=500)
+    n_true = n_back = 0
+    for k, ((inst, res, exc, variant, oracle, untouched), v) in \
+            enumerate(zip(obs, vals)):
+        v = (v or "").strip()
+        model_true = v.startswith("Some")
+        n_true += bool(res)
+        first = all(not (l[0]["a"] & m["b"] or l[0]["b"] & m["a"])
+                    for n_, l in enumerate(inst) for m in
+                    [x[0] for x in inst[:n_]])
+        n_back += bool(res) and not first
+        ok = (exc is None and res == model_true and res == (oracle is not None)
+              and untouched
+              and (v == "Some true" if res else
+                   variant == {"a": set(), "b": set()}))
+        ctx.case(key=("hvc", repr(inst)), nontrivial=len(inst) >= 3,
+                 kind=f"hvc:{'found' if res else 'none'}")
+        if not ctx.obligation(f"_has_valid_combination == hvc == brute "
+                              f"force #{k}", ok,
+                              f"python {res} {exc} model {v} oracle "
+                              f"{oracle is not None}"):
+            ctx.violation(
+                f"C15:has-valid-combination:#{k}",
+                "_has_valid_combination differs from the model hvc / from "
+                "the brute-force search over all choices of one map per "
+                "object, or leaves additions of a failed trial in the "
+                "variant",
+                {"candidate_maps": repr(inst), "python": res,
+                 "exception": exc, "variant_after": repr(variant),
+                 "model": v, "brute_force_solution": repr(oracle),
+                 "theorem": "C15_dfs_sound / C15_dfs_complete"},
+                exc is None and res is False and oracle is not None)
+            if len([x for x in ctx.violations
+                    if x["key"].startswith("C15:has-valid")]) >= 5:
+                break
+    ctx.extra["hvc_stats"] = {"instances": len(obs), "found": n_true,
+                              "found_after_backtracking": n_back}
 
 
 def split_pair(v):
@@ -824,6 +1074,8 @@ def run(ctx):
     stage_integrate(ctx, tabs, cases)
     stage_expand(ctx)
     stage_expr_blocks(ctx, tabs, quick)
+    stage_blocks_bruteforce(ctx, tabs, quick)
+    stage_hvc(ctx, quick)
     stage_pipeline(ctx, tabs, cases[:(60 if quick else 300)], quick)
 
 
